@@ -43,8 +43,8 @@ func attribute(w *Workload, rep *RunReport) string {
 		for _, cl := range w.Clients {
 			for _, op := range cl {
 				if op.Kind == "search" && e.compiled[op.Expr] == nil {
-					jp, err := jmespath.Compile(w.Exprs[op.Expr])
-					if err != nil {
+					jp, _ := safeCompile(w.Exprs[op.Expr])
+					if jp == nil {
 						return nil
 					}
 					e.compiled[op.Expr] = jp
